@@ -3,6 +3,7 @@ from pyg_base._eq import eq
 from pyg_base._types import is_str
 from pyg_base._ulist import ulist
 from copy import copy
+from copy import copy as _copy # for use where a parameter is itself called 'copy'
 
 __all__ = ['dictattr', 'relabel']
 
@@ -65,6 +66,7 @@ class dictattr(dict):
             branch = res
             for k in key[:-1]:
                 if k in branch:
+                    branch[k] = _copy(branch[k]) # res is a shallow copy: walk down on copies so that the nested branches of self are untouched
                     branch = branch[k]
                 else:
                     return res
